@@ -41,7 +41,7 @@ for p in props:
         m = json.loads(s.read_text())
         res = m.get("check_results", {})
         own = res.get(pid, {})
-        mark = {"failing-input": "caught", "tie-only": "tie", "missed": "MISSED"}.get(own.get("outcome"), "?")
+        mark = {"failing-input": "caught", "tie-only": "tie", "missed": "MISSED", "neutralised": "neutralised", "infra": "infra"}.get(own.get("outcome"), "?")
         caught.append(f"{m['id'].split('-')[1]}:{mark}")
         seed_rows.append((m["id"], pid, m.get("needs_to_manifest", "").replace("\n", " ")[:150], res))
     out.append("| %s | %s | %d | %s | %s | %s |" % (
